@@ -36,6 +36,16 @@
     the name `x`, the type the declarator denotes, the access level in force in THAT class (the
     value `C03_access_tracks` characterises), no bit width, no value and the doc text before or
     else behind the declaration.
+  * `C03_toplevel_class_head`, `C03_toplevel_class_end` (`Theorems/ClassForm.lean`, `TopLevel.lean`): through the parse
+    loop and the recursive core — `class N {` / `struct a::b::N {` / `union N {` (no base clause) opens
+    exactly ONE class block whose access level is the class-key default (`private` for `class`,
+    `public` for `struct` / `union`: the `.opn` step of the machine of `C03_stack_refines`), carrying
+    the written key and name, the doc text and the access level in force in the enclosing class;
+    `} ;` of a named class ends and pops exactly that block (the `.close` step), restores the
+    visitor in force before it, consumes the `;` and synthesises nothing.  Together with
+    `C03_toplevel_access_specifier`, `C03_toplevel_field` and `C03_access_tracks`: in a class body of
+    data members and access specifiers, nested to any depth, every member is reported once with the
+    access level in force at its position.
 -/
 import CxxModel.Blocks
 import CxxModel.Theorems.Events
@@ -169,6 +179,43 @@ theorem C03_toplevel_field (env : Env) (hc : env.cfg = genLexCfg) (F D : Nat) (w
       w7.delivered = w.delivered + 1 ∧ w7.anon = w.anon ∧ w7.muted = false ∧ w7.nextId = w.nextId :=
   toplevel_field env (by rw [hc]; exact gen_rules_progress) F D w first pairs ops x semi d1 b1 b0 bmid bx b' blk rest hstack hk acc hacc hmu hfa
     htok hty htv hall hy0 hops hopsv hy ha htx hx hxv hsemi hs hF
+
+end
+
+section
+open P
+
+theorem C03_toplevel_class_head (env : Env) (hc : env.cfg = genLexCfg) (F D : Nat) (w : World)
+    (kw first : Tok) (pairs : List (Tok × Tok)) (ob : Tok) (bk b1 bmid b' : Buf)
+    (blk : Block) (rest : List Block) (hstack : w.stack = blk :: rest)
+    (hmu : w.muted = false) (hfa : ¬ env.faultAt = some w.delivered)
+    (htkw : tokenEofOk env.cfg w.buf = .ok (some kw, bk)) (hkw : isClassKey kw.value = true) (hkwt : kw.type = kw.value)
+    (htf : tokenEofOk env.cfg bk = .ok (some first, b1)) (hf : first.type = "NAME") (hfv : plainVal first.value = true)
+    (hall : ∀ p ∈ pairs, p.1.type = "DBL_COLON" ∧ p.2.type = "NAME" ∧ plainVal p.2.value = true)
+    (hy : Yields env.cfg b1 (pairs.flatMap (fun p => [p.1, p.2])) bmid)
+    (htok : tokenEofOk env.cfg bmid = .ok (some ob, b')) (hob : ob.type = "{") (hF : pairs.length + 2 ≤ F) :
+    ∃ (d : Option String) (bD : Buf) (w' : World) (ct : CTok),
+      getDoxygen env.cfg env.mcRe w.buf = .ok (d, bD) ∧ w'.buf = b' ∧ ct.value = kw.value ∧
+      w'.stack = w.stack ∧ w'.events = w.events ∧ w'.delivered = w.delivered ∧ w'.anon = w.anon ∧ w'.muted = w.muted ∧
+      w'.nextId = w.nextId ∧
+      interp env (mainBody F (core F (D + 1 + 1)) none) w =
+        (pushedWorld env (classHdr ct first pairs blk d) w', .ok (.inl none)) :=
+  toplevel_class_head env (by rw [hc]; exact gen_rules_progress) F D w kw first pairs ob bk b1 bmid b' blk rest hstack hmu hfa
+    htkw hkw hkwt htf hf hfv hall hy htok hob hF
+
+theorem C03_toplevel_class_end (env : Env) (hc : env.cfg = genLexCfg) (F : Nat) (c : Core) (w : World)
+    (cl semi : Tok) (b1 b' : Buf) (cb blk : Block) (rest : List Block) (n : String) (sp : Option TemplateSpec)
+    (hstack : w.stack = cb :: blk :: rest) (hg : cb.isGlobal = false) (hk : cb.hdr.kind = .cls)
+    (htd : cb.hdr.typedef = false) (hname : cb.hdr.cls.typename.segments.getLast? = some (.name n sp))
+    (hacc : blk.hdr.kind = .cls → ∃ a, blk.access = some a)
+    (htcl : tokenEofOk env.cfg w.buf = .ok (some cl, b1)) (hcl : cl.type = "}")
+    (htok : tokenEofOk env.cfg b1 = .ok (some semi, b')) (hs : semi.type = ";") :
+    ∃ (wA : World) (ct : CTok), SameParse w wA ∧ ct.value = cl.value ∧
+      ∀ w1, deliver env { wA with mainTok := some ct } (mkEvent { wA with mainTok := some ct } .blockEnd cb (some blk.id)) = (w1, none) →
+        ∃ w3, interp env (mainBody F c none) w = (w3, .ok (.inl none)) ∧ w3.buf = b' ∧
+          SameParse { w1 with muted := cb.priorMuted, stack := blk :: rest } w3 :=
+  toplevel_class_end env (by rw [hc]; exact gen_rules_progress) F c w cl semi b1 b' cb blk rest n sp hstack hg hk htd hname hacc
+    htcl hcl htok hs
 
 end
 
